@@ -424,7 +424,12 @@ pub fn gen_records(rng: &mut Rng, f: &mut FactSet, cfg: &GenCfg) {
                 1 => format!("omim {} {}", rid, gen_name(rng, cfg.names)),
                 _ => format!("orpha {} {}", rid, gen_name(rng, cfg.names)),
             };
-            let name = if rng.chance(1, 40) { String::new() } else { name };
+            // empty names and the placeholder-looking "-" are legal names
+            let name = match rng.below(40) {
+                0 => String::new(),
+                1 => "-".to_string(),
+                _ => name,
+            };
             let mut terms: Vec<u32> = Vec::new();
             let nt = if cfg.empty_recs && rng.chance(1, 6) {
                 0
